@@ -35,6 +35,10 @@ func main() {
 		os.Exit(cmdDump(os.Args[2:]))
 	case "manifest":
 		os.Exit(cmdManifest())
+	case "dump-funcs":
+		os.Exit(cmdDumpFuncs(os.Args[2:]))
+	case "norm":
+		os.Exit(cmdNorm(os.Args[2:]))
 	case "list":
 		for _, id := range rules.IDs() {
 			p := rules.Get(id)
@@ -223,6 +227,18 @@ func runConfig(prop *rules.Property, sp cfgSpec, tier, only string) (*an.Result,
 		return nil, err
 	}
 	rep := an.NewReport(prop.ID, tier)
+	if n := p.Norm; n != nil && len(n.Unknown) > 0 {
+		rep.Notes = append(rep.Notes, fmt.Sprintf("normalisation: %d function(s) outside the reviewed inventory; %d call site(s) inlined in %d round(s); %d helper declaration(s) removed", len(n.Unknown), len(n.Inlined), n.Rounds, len(n.Removed)))
+		for _, s := range n.Inlined {
+			rep.Notes = append(rep.Notes, "normalisation: inlined "+s)
+		}
+		for _, s := range n.Kept {
+			rep.Notes = append(rep.Notes, "normalisation: left as written: "+s)
+		}
+		if n.Failed != "" {
+			rep.Notes = append(rep.Notes, "normalisation: "+n.Failed)
+		}
+	}
 	rules.RunRules(prop, p, rep, sp.Scope, only)
 	return rep.ToResult(sp.name()), nil
 }
@@ -312,6 +328,62 @@ func cmdDump(args []string) int {
 	for _, f := range an.WithAnon(fn) {
 		f.WriteTo(os.Stdout)
 		fmt.Println()
+	}
+	return 0
+}
+
+// cmdDumpFuncs prints the function inventory of the repository (root module and nested modules).
+func cmdDumpFuncs(args []string) int {
+	fs := flag.NewFlagSet("dump-funcs", flag.ExitOnError)
+	repo := fs.String("repo", "/repo", "")
+	fs.Parse(args)
+	var dirs []string
+	filepath.Walk(*repo, func(path string, fi os.FileInfo, err error) error {
+		if err != nil {
+			return nil
+		}
+		if fi.IsDir() && path != *repo && strings.HasPrefix(fi.Name(), ".") {
+			return filepath.SkipDir
+		}
+		if !fi.IsDir() && fi.Name() == "go.mod" {
+			dirs = append(dirs, filepath.Dir(path))
+		}
+		return nil
+	})
+	sort.Strings(dirs)
+	fmt.Println("# function inventory of the reviewed tree: helpers that are not listed here are inlined into their callers before analysis (see norm.go)")
+	fmt.Println("# regenerate with: sa dump-funcs -repo /repo > sa/internal/an/knownfuncs.txt")
+	for _, d := range dirs {
+		l, err := an.DeclaredFuncs(d)
+		if err != nil {
+			fmt.Fprintln(os.Stderr, err)
+			return 2
+		}
+		for _, k := range l {
+			fmt.Println(k)
+		}
+	}
+	return 0
+}
+
+// cmdNorm prints the normalised source of a tree (debugging aid).
+func cmdNorm(args []string) int {
+	fs := flag.NewFlagSet("norm", flag.ExitOnError)
+	repo := fs.String("repo", "/repo", "")
+	show := fs.Bool("show", false, "print the rewritten files")
+	fs.Parse(args)
+	ov, rep := an.BuildOverlay(an.Config{Dir: *repo, Patterns: []string{"./..."}, GOOS: "linux", GOARCH: "amd64"})
+	b, _ := json.MarshalIndent(rep, "", " ")
+	fmt.Println(string(b))
+	if *show {
+		var names []string
+		for n := range ov {
+			names = append(names, n)
+		}
+		sort.Strings(names)
+		for _, n := range names {
+			fmt.Printf("==== %s\n%s\n", n, ov[n])
+		}
 	}
 	return 0
 }
